@@ -29,6 +29,8 @@ def run_family(prop, family, tier, sizes_q, sizes_t, modes, l1, l3_calls, text, 
     run.sample({"L2": {"label": v["label"], "call": {k: x for k, x in v["calls"][-1].items() if k in ("t", "m", "k", "d", "forward", "sym", "P", "Q")}}})
     # L2b: lengths around powers of two (where chunked / table-driven implementations change behaviour)
     pw = [x for e in ((7, 8, 9, 10, 12, 13) if not thorough else (7, 8, 9, 10, 11, 12, 13, 14)) for x in ((1 << e) - 1, 1 << e, (1 << e) + 1)]
+    # the same derived block count reached in two parameter regimes (n/8 = n'/128 = 100; 75), in one process
+    pw += [600, 800, 9600, 12800]
     r, vecs3 = statlib.gen_stats(family, 2, sizes=tuple(pw), modes=("uni",) if not thorough else ("uni", "bias75"), seeds=seeds[:1], invariants=("AlgEqualsDef",))
     run.add_tlc(r, "GenStats %s Level=2 powers of two -1/0/+1: %s" % (family, pw))
     statlib.replay(run, hz, vecs3)
@@ -36,6 +38,8 @@ def run_family(prop, family, tier, sizes_q, sizes_t, modes, l1, l3_calls, text, 
     inputs = []
     # 1048579 > 2^20: the first length above a power-of-two block size a chunked implementation might use
     l3s = l3_sizes or ([999999, 1000000, 1000003, 1048575, 1048576, 1048579] + ([100000, 10000000] if thorough else []))
+    # byte-aligned lengths above 2^16 bits of different sizes (65544, 98304, 131072 bits): buffers kept between calls
+    l3s = list(l3s) + [x for x in (65544, 98304, 131072) if x not in l3s]
     l3modes = ["uni", "bias", "runsbias", "periodic"] + (["heavy", "dombyte", "step", "alt", "halves", "onehot", "const1"] if thorough else ["heavy"])
     iid = 0
     for n in l3s:
